@@ -371,7 +371,11 @@ func (h *hSpec) Call(x *gea.Exec, st *gea.State, call *ast.CallExpr, env *gea.En
 			i := 0
 			for _, f := range fi.Decl.Type.Params.List {
 				for _, n := range f.Names {
-					d[n.Name] = arg(i)
+					name := n.Name
+					if r, ok := p.Rename[p.Info.Defs[n]]; ok {
+						name = r // keyed by the parameter's reviewed name
+					}
+					d[name] = arg(i)
 					i++
 				}
 			}
